@@ -124,7 +124,7 @@ def key_tok(key):
 def to_line(st) -> str:
     k = st[0]
     if k == "leaf":
-        return f"eng leaf {st[1]} {shp(st[2])} {ints(st[3])} {int(st[4])}" + (" F" if len(st) > 5 and st[5] == "F" else "")
+        return f"eng leaf {st[1]} {shp(st[2])} {ints(st[3])} {int(st[4])}" + (" " + st[5] if len(st) > 5 and st[5] in ("F", "RO") else "")
     if k == "bin":
         return f"eng bin {st[1]} {st[2]} {operand_tok(st[3])} {operand_tok(st[4])} {c_tok(st[5])}"
     if k == "un":
@@ -226,7 +226,13 @@ class RealExec:
         k = st[0]
         v = self.v
         if k == "leaf":
-            v[st[1]] = mg.tensor(leaf_array(st), constant=bool(st[4]))
+            if len(st) > 5 and st[5] == "RO":
+                # a tensor over natively read-only memory (the caller's array, not copied)
+                a = np.array(leaf_array(st))  # an *owning* array (a read-only view of a writeable owner is C08's D1)
+                a.flags.writeable = False
+                v[st[1]] = mg.tensor(a, constant=bool(st[4]), copy=False)
+            else:
+                v[st[1]] = mg.tensor(leaf_array(st), constant=bool(st[4]))
         elif k == "bin":
             v[st[1]] = MG_BIN[st[2]](self.operand(st[3]), self.operand(st[4]), constant=st[5])
         elif k == "un":
@@ -354,6 +360,8 @@ class NumpyExec:
         k, v = st[0], self.v
         if k == "leaf":
             v[st[1]] = np.copy(leaf_array(st), order="K")
+            if len(st) > 5 and st[5] == "RO":
+                v[st[1]].flags.writeable = False
         elif k == "bin":
             v[st[1]] = np.asarray(BIN[st[2]](self.operand(st[3]), self.operand(st[4])))
         elif k == "un":
@@ -731,8 +739,9 @@ def bshape_for(rng, shape):
 
 class Gen:
     def __init__(self, rng, n_stmts=8, p_inplace=0.3, p_view=0.25, p_fail=0.03, p_const=0.15, inplace=True,
-                 final_back=True, multi_back=False, allow_empty=True, f_order=True):
+                 final_back=True, multi_back=False, allow_empty=True, f_order=True, ro_leaves=False):
         self.f_order = f_order
+        self.ro_leaves = ro_leaves
         self.rng = rng
         self.prog = []
         self.shape: Dict[int, Tuple[int, ...]] = {}
@@ -782,6 +791,8 @@ class Gen:
         fort = self.f_order and len([d for d in s if d > 1]) >= 2 and rng.random() < 0.3
         if fort:
             st.append("F")
+        elif self.ro_leaves and rng.random() < 0.12:
+            st.append("RO")
         self.prog.append(st)
         self.shape[n] = tuple(s)
         self.known[n] = True
